@@ -522,6 +522,8 @@ pub fn expand_long(c: &LongCase) -> LongHistory {
         transparency: 0,
         default_font_page: 0,
         storage: 0,
+        preview: None,
+        stripes: vec![],
         cells: (0..8).map(|k| ((mix(c.seed, 1 << 40, k) % w as u64) as u8, (mix(c.seed, 1 << 41, k) % h as u64) as u8, cellm(mix(c.seed, 1 << 42, k)))).collect(),
     };
     let mut layers = vec![base.clone()];
@@ -545,6 +547,7 @@ pub fn expand_long(c: &LongCase) -> LongHistory {
         caret_font: 0,
         cur: 0,
         mirror: false,
+        transient: Default::default(),
     };
     let mut ops = Vec::with_capacity(c.n as usize + c.n as usize / 4);
     let mut item_end = Vec::with_capacity(c.n as usize);
@@ -590,7 +593,9 @@ pub fn expand_long(c: &LongCase) -> LongHistory {
                 ops.push(Op::SwapChar { x1: (a % 8) as i8, y1: ((a >> 8) % 6) as i8, x2: ((a >> 16) % 8) as i8, y2: ((a >> 24) % 6) as i8 });
                 steps += 1;
             }
-            87..=106 => ops.push(Op::MoveCaret { x: (a % 10) as i8, y: ((a >> 8) % 8) as i8 }),
+            87..=100 => ops.push(Op::MoveCaret { x: (a % 10) as i8, y: ((a >> 8) % 8) as i8 }),
+            // a drag in progress: no undo step of its own, the next move_layer commits it
+            101..=106 => ops.push(Op::Drag { x: (a % 6) as i8, y: ((a >> 8) % 4) as i8 }),
             107..=118 => ops.push(Op::SetCurrentLayer { l: (a % 240) as u8 }),
             _ => {
                 ops.push(set_char(a));
@@ -757,6 +762,19 @@ pub fn minimize(c: &Case) -> Vec<Case> {
     }
     if d.sel.is_some() {
         out.push(with(&|d| d.sel = None));
+    }
+    for j in 0..d.layers.len() {
+        for k in 0..d.layers[j].stripes.len() {
+            out.push(with(&|d| {
+                d.layers[j].stripes.remove(k);
+            }));
+        }
+    }
+    if d.layers.iter().any(|l| l.preview.is_some()) {
+        out.push(with(&|d| d.layers.iter_mut().for_each(|l| l.preview = None)));
+    }
+    if d.transient != crate::model::TransientM::default() {
+        out.push(with(&|d| d.transient = Default::default()));
     }
     if !d.mask.is_empty() {
         out.push(with(&|d| d.mask.clear()));
